@@ -218,7 +218,7 @@ def goRem (a b : Int) : Int := a.tmod b
 
 def runtimeRem (x y : Val) : Option Val :=
   match x.kind, y.kind with
-  | .int, .int | .float, .int | .float, .float =>
+  | .int, .int | .int, .float | .float, .int | .float, .float =>
     match x.num?, y.num? with
     | some a, some b =>
       let bi := Fn.ratTrunc b
